@@ -10,7 +10,7 @@ func init() {
 	vk.Register(&vk.Check{
 		ID:    "C03",
 		Level: "fault_enumeration",
-		Rule: "the honest transcript of every protocol is recorded and a fault catalogue derived mechanically from it: for every message the corrupted participant sends, every leaf of its CBOR tree x typed alterations (boundary values, negation, generator/identity, +-1, random of the same size, the same-sized value of another message of the transcript, bit flip, truncation) x delivery mode (echo-consistent: the sender's own stored broadcast is altered too; wire-only: one recipient's copy), plus whole-message substitutions (previous round, other session, other kind, other recipient's message, empty recipient header); one fault per run through the real handlers; oracle: every honest party is unfinished, failed, or holds a result that is correct (independent verifier) and consistent with every other honest finisher; " +
+		Rule: "the honest transcript of every protocol is recorded and a fault catalogue derived mechanically from it: for every message the corrupted participant sends, every leaf of its CBOR tree x typed alterations (boundary values, negation, generator/identity, +-1, random of the same size, the same-sized value of another message of the transcript, bit flip, truncation) x delivery mode (echo-consistent: the sender's own stored broadcast is altered too; wire-only: one recipient's copy), plus whole-message substitutions (previous round, other session, other kind, other recipient's message, empty recipient header), crafted deviations (a VSS share of the own polynomial at 0 with an empty recipient, another recipient's share) and a state-level one (sharing polynomial of degree t+1 / t-1 with all messages consistent); one fault per run through the real handlers; oracle: every honest party is unfinished, failed, or holds a result that is correct (independent verifier) and consistent with every other honest finisher; " +
 			"distinct non-trivial = distinct (protocol, corrupted position, round, kind, field path, alteration, mode) runs in which the fault was actually applied",
 		MinDistinct:  150,
 		Assumptions:  []string{"one deviating participant, authenticated channels", "a panic of an honest party counts as 'did not finish' here (it is judged by C05)"},
@@ -49,4 +49,24 @@ func campaignCases(which string, env vk.Env) []vk.Case {
 	return cs
 }
 
-func c03Cases(env vk.Env) []vk.Case { return campaignCases("C03", env) }
+func c03Cases(env vk.Env) []vk.Case {
+	cs := campaignCases("C03", env)
+	// state-level deviation: a sharing polynomial of the wrong degree, all messages consistent with it
+	for pos := 0; pos < env.Pick(4, 16); pos++ {
+		pos := pos
+		for _, p := range []string{"frost-keygen", "taproot-keygen", "frost-refresh", "taproot-refresh"} {
+			p := p
+			cs = append(cs, vk.Case{ID: fmt.Sprintf("degree+1/%s/pos%d", p, pos), Run: func(t *vk.T) { c03Degree(t, p, pos, 3+pos%2, 1, +1) }})
+			cs = append(cs, vk.Case{ID: fmt.Sprintf("degree-1/%s/pos%d", p, pos), Run: func(t *vk.T) { c03Degree(t, p, pos, 3+pos%2, 2, -1) }})
+		}
+	}
+	for pos := 0; pos < env.Pick(1, 4); pos++ {
+		pos := pos
+		for _, p := range []string{"cmp-keygen", "cmp-refresh"} {
+			p := p
+			cs = append(cs, vk.Case{ID: fmt.Sprintf("degree+1/%s/pos%d", p, pos), Run: func(t *vk.T) { c03Degree(t, p, pos, 3, 1, +1) }})
+			cs = append(cs, vk.Case{ID: fmt.Sprintf("degree-1/%s/pos%d", p, pos), Run: func(t *vk.T) { c03Degree(t, p, pos, 3, 2, -1) }})
+		}
+	}
+	return cs
+}
